@@ -23,7 +23,7 @@ KINDS = ['none', 'time', 'space', 'quarter']
 def plan(tier, seed):
     specs = []
     for c in CURVES:
-        for k in range(3 if tier == 'quick' else 12):
+        for k in range(3 if tier == 'quick' else 32):
             specs.append({'name': 'mesh-%s-%d' % (c, k), 'curve': c, 'rseed': seed * 271 + k, 'n_ops': 20 + 10 * k if tier == 'quick' else 30 + 6 * k,
                           'n_pairs': 160 if tier == 'quick' else 1200})
     return specs
